@@ -134,3 +134,92 @@ Proof.
     destruct (vget (t_disk u) h); auto.
   - apply (IH (fun n0 t0 I0 => H n0 t0 (or_intror I0)) m u d I).
 Qed.
+
+(* ---------- C12: a version the pruning policy retains stays readable, with exactly the committed content ---------- *)
+(* a policy never releases version h *)
+Definition never_releases (p : prune) (h : Z) : Prop := forall v, to_release p v <> Some h.
+(* the policies a history runs under: the one in force and every one set later *)
+Fixpoint policies_ok (h : Z) (p : prune) (ops : list mop) : Prop :=
+  match ops with
+  | [] => never_releases p h
+  | MSetPruning p' :: r => never_releases p h /\ policies_ok h p' r
+  | _ :: r => policies_ok h p r
+  end.
+Definition kept (h : Z) (c : kv) (t : tree) : Prop := h <= t_ver t /\ vget (t_disk t) h = Some c.
+Definition all_kept (h : Z) (cs : list (bytes * kv)) (ts : list (bytes * tree)) : Prop :=
+  map fst ts = map fst cs /\ forall n t c, In ((n, t), (n, c)) (combine ts cs) -> kept h c t.
+
+Lemma store_commit_kept p t tf units h c : never_releases p h -> store_commit p t = Some (tf, units) -> kept h c t -> kept h c tf.
+Proof.
+  intros NR E [Hle Hv].
+  assert (F : frozen h c tf) by (eapply store_commit_frozen; eauto; split; auto).
+  destruct F as [Hle' _]. split; [exact Hle'|].
+  rewrite (store_commit_keeps_other_versions p t tf units h E); [exact Hv|lia|apply NR].
+Qed.
+Lemma commit_trees_kept p h : never_releases p h -> forall ts cs ts' infos bl cr, commit_trees p ts None = Some (ts', infos, bl, cr) ->
+  all_kept h cs ts -> all_kept h cs ts'.
+Proof.
+  intros NR. induction ts as [|[n t] r IH]; intros cs ts' infos bl cr E [Hn Hf].
+  - cbn in E. injection E as <- _ _ _. split; auto.
+  - cbn [commit_trees] in E. destruct (store_commit p t) as [[tf units]|] eqn:Es; [|discriminate].
+    destruct (commit_trees p r None) as [[[[r' infos'] bl'] cr']|] eqn:Er; [|discriminate]. injection E as <- _ _ _.
+    destruct cs as [|[n' c] cs]; [discriminate|]. cbn [map fst] in Hn. injection Hn as -> Hn.
+    assert (Hr : all_kept h cs r) by (split; auto; intros m u d I; apply (Hf m u d); right; exact I).
+    destruct (IH cs r' infos' bl' cr' eq_refl Hr) as [Hn' Hf'].
+    split; [cbn [map fst]; congruence|].
+    intros m u d [I|I].
+    + inversion I; subst. eapply store_commit_kept; eauto. eapply Hf. left. reflexivity.
+    + apply (Hf' m u d I).
+Qed.
+Lemma upd_tree_kept h cs : forall ts name f, all_kept h cs ts -> all_kept h cs (upd_tree ts name f).
+Proof.
+  intros ts. revert cs. induction ts as [|[n t] r IH]; intros cs name f [Hn Hf]; [split; auto|].
+  destruct cs as [|[n' c] cs]; [discriminate|]. cbn [map fst] in Hn. injection Hn as -> Hn.
+  cbn [upd_tree]. destruct (beqb n' name).
+  - split; [cbn [map fst]; congruence|]. intros m u d [I|I].
+    + inversion I; subst. destruct (Hf _ t _ (or_introl eq_refl)) as [A B]. split; auto.
+    + apply (Hf m u d). right. exact I.
+  - assert (Hr : all_kept h cs r) by (split; auto; intros m u d I; apply (Hf m u d); right; exact I).
+    destruct (IH cs name f Hr) as [Hn' Hf']. split; [cbn [map fst]; congruence|].
+    intros m u d [I|I]; [inversion I; subst; eapply Hf; left; reflexivity|apply (Hf' m u d I)].
+Qed.
+Lemma policies_ok_head h p ops : policies_ok h p ops -> never_releases p h.
+Proof. induction ops as [|o r IH]; cbn [policies_ok]; [auto|]. destruct o; try exact IH. intros [A _]. exact A. Qed.
+Theorem mrun_kept h cs ops : forall ms ms', policies_ok h (ms_prune ms) ops -> mrun ops ms = Some ms' ->
+  all_kept h cs (ms_trees ms) -> all_kept h cs (ms_trees ms').
+Proof.
+  induction ops as [|o r IH]; intros ms ms' PO E K; [injection E as <-; exact K|].
+  cbn [mrun] in E. destruct (mstep ms o) as [ms1|] eqn:E1; [|discriminate].
+  destruct o as [n k v|n k|n k v|p| ]; cbn [mstep] in E1; cbn [policies_ok] in PO.
+  - injection E1 as <-. apply (IH (ms_set ms n k v) ms' PO E). apply upd_tree_kept. exact K.
+  - injection E1 as <-. apply (IH (ms_delete ms n k) ms' PO E). apply upd_tree_kept. exact K.
+  - injection E1 as <-. apply (IH (ms_tset ms n k v) ms' PO E). exact K.
+  - injection E1 as <-. destruct PO as [_ PO]. apply (IH (ms_set_pruning ms p) ms' PO E). exact K.
+  - unfold commit in E1. destruct (commit_trees (ms_prune ms) (ms_trees ms) None) as [[[[ts infos] bl] cr]|] eqn:Ec; [|discriminate].
+    assert (NR : never_releases (ms_prune ms) h) by (eapply policies_ok_head; eauto).
+    assert (G : all_kept h cs ts) by (eapply commit_trees_kept; eauto).
+    assert (PO1 : policies_ok h (ms_prune ms1) r /\ ms_trees ms1 = ts).
+    { destruct (cr || negb match bl with Some O => false | _ => true end); injection E1 as <-; cbn [ms_prune ms_trees]; auto. }
+    destruct PO1 as [PO1 Et]. apply (IH _ _ PO1 E). rewrite Et. exact G.
+Qed.
+(* hence: a query at a retained height answers with exactly the committed value, after any history *)
+Theorem retained_version_stays_readable h cs ops ms ms' name key c : h <> 0 ->
+  policies_ok h (ms_prune ms) ops -> all_kept h cs (ms_trees ms) -> mrun ops ms = Some ms' ->
+  find (fun p => beqb (fst p) name) cs = Some (name, c) -> ms_query ms' name key h = QValue (aget c key).
+Proof.
+  intros Hh PO K E Fc. pose proof (mrun_kept h cs ops ms ms' PO E K) as [Hn Hf].
+  assert (G : forall ts cs0, map fst ts = map fst cs0 -> (forall n t c0, In ((n, t), (n, c0)) (combine ts cs0) -> kept h c0 t) ->
+              find (fun p => beqb (fst p) name) cs0 = Some (name, c) ->
+              exists t, find (fun p => beqb (fst p) name) ts = Some (name, t) /\ kept h c t).
+  { induction ts as [|[n u] r IH]; intros [|[n' d] cs0] Hm Hk Hc; try discriminate.
+    cbn [map fst] in Hm. injection Hm as -> Hm. cbn [find fst] in Hc |- *. destruct (beqb n' name) eqn:B.
+    - injection Hc as <- <-. exists u. split; auto. apply (Hk n' u d). left. reflexivity.
+    - apply IH with (cs0 := cs0); auto. intros m w e I. apply (Hk m w e). right. exact I. }
+  destruct (G _ _ Hn Hf Fc) as (t & Ft & [_ Hv]). eapply query_reads_committed; eauto.
+Qed.
+(* e.g. the policy that keeps everything (keep_every = 1) never releases anything *)
+Lemma keep_every_1_never_releases kr h : never_releases {| keep_recent := kr; keep_every := 1 |} h.
+Proof.
+  intros v. unfold to_release. cbn [keep_recent keep_every]. destruct (kr <? v - 1); [|discriminate].
+  cbn [Z.eqb orb]. rewrite Z.rem_1_r. cbn. discriminate.
+Qed.
